@@ -211,6 +211,8 @@ class C16Check(object):
     def execute(self, case):
         from sim import parsim
 
+        if "crosscheck_case" in case:
+            return self._execute_crosscheck(case)
         out = Outcome()
         env.reset_process_state("c16")
         sim = parsim.Sim(case["sim"]["seed"], case["sim"], out)
@@ -223,6 +225,26 @@ class C16Check(object):
         nonserial = out.probes.get("schedules_run", 0)
         out.nontrivial = nonserial > 0
         out.info["regions"] = len(sim.records)
+        return out
+
+    def _execute_crosscheck(self, case):
+        """Replay of a real-thread cross-check configuration (runs the subprocess again)."""
+        import json
+        import subprocess
+
+        out = Outcome()
+        script = os.path.join(env.VERIF_ROOT, "checks", "c16_crosscheck.py")
+        envv = dict(os.environ)
+        envv.pop("NUMBA_NUM_THREADS", None)
+        p = subprocess.run([sys.executable, script, str(case["crosscheck_case"])], capture_output=True, text=True, env=envv,
+                           cwd=env.VERIF_ROOT, timeout=1500)
+        line = [ln for ln in p.stdout.splitlines() if ln.startswith("CROSSCHECK ")]
+        if not line:
+            raise RuntimeError("crosscheck failed: " + p.stderr[-800:])
+        row = json.loads(line[0][len("CROSSCHECK "):])
+        out.events.append(["crosscheck", row["label"], row["bitwise_equal_across_threads"]])
+        if not row["bitwise_equal_across_threads"]:
+            out.violate("real_threads_change_result", kernel=row["label"], thread_digests=row["thread_digests"])
         return out
 
     def _execute(self, case, out, sim):
@@ -443,7 +465,76 @@ def main(argv=None):
         chk.tier = args.tier
         return runner.print_digests(chk, runner.parse_runs(args.digests), args.repeat)
     runs = args.runs if args.runs is not None else (160 if args.tier == "quick" else 6000)
-    return runner.run(factory, PROP, args.tier, runs, nworkers=args.workers)
+    finalize = None
+    if not args.no_crosscheck:
+        finalize = start_crosscheck(args.tier, runs)
+    return runner.run(factory, PROP, args.tier, runs, nworkers=args.workers, finalize=finalize)
+
+
+def start_crosscheck(tier, runs):
+    """Launch the real-thread cross-check (checks/c16_crosscheck.py) in subprocesses; return a collector."""
+    import json
+    import subprocess
+
+    from checks import c16_crosscheck
+
+    seed = rng.base_seed()
+    ncases = len(c16_crosscheck.CASES)
+    count = 6 if tier == "quick" else ncases
+    picks = [(seed * 7 + 5 * j) % ncases for j in range(count)]
+    picks = sorted(set(picks))
+    script = os.path.join(env.VERIF_ROOT, "checks", "c16_crosscheck.py")
+    procs = []
+    envv = dict(os.environ)
+    envv.pop("NUMBA_NUM_THREADS", None)
+    for i in picks:
+        procs.append((i, subprocess.Popen([sys.executable, script, str(i)], stdout=subprocess.PIPE,
+                                          stderr=subprocess.PIPE, text=True, env=envv, cwd=env.VERIF_ROOT)))
+
+    def collect():
+        rows = []
+        errors = []
+        extra_results = []
+        for i, p in procs:
+            try:
+                so, se = p.communicate(timeout=1500)
+            except subprocess.TimeoutExpired:
+                p.kill()
+                errors.append("crosscheck case %d timed out" % i)
+                continue
+            line = [ln for ln in so.splitlines() if ln.startswith("CROSSCHECK ")]
+            if p.returncode != 0 or not line:
+                errors.append("crosscheck case %d failed (exit %s): %s" % (i, p.returncode, se[-1500:]))
+                continue
+            row = json.loads(line[0][len("CROSSCHECK "):])
+            rows.append(row)
+            viol = []
+            if not row["bitwise_equal_across_threads"]:
+                viol.append({"kind": "real_threads_change_result", "kernel": row["label"], "thread_digests": row["thread_digests"]})
+            if not row["interpreted_agrees"]:
+                errors.append("crosscheck case %d: interpreted kernels disagree with compiled ones (rel %.3g): the "
+                              "closure conversion misrepresents %s" % (i, row["interpreted_vs_compiled_rel"], row["label"]))
+            if viol:
+                extra_results.append({
+                    "run": 10**6 + i, "violations": viol, "digest": "crosscheck-%d" % i, "probes": {}, "faults": {},
+                    "steps": 0, "nontrivial": False, "state_keys": [], "sample": None, "info": {},
+                    "case": {"crosscheck_case": i, "config": c16_crosscheck.CASES[i]}, "wall_s": 0.0,
+                })
+        extra = {
+            "real_thread_crosscheck": {
+                "what": "real compiled kernels under numba.set_num_threads(1,2,7,16), two repetitions each, bitwise "
+                        "comparison; plus interpreted-vs-compiled agreement (validates the closure conversion). "
+                        "Observation of real executions: model validation, not the deciding step.",
+                "cases": len(rows),
+                "all_bitwise_equal": all(r["bitwise_equal_across_threads"] for r in rows) if rows else None,
+                "all_interpreted_agree": all(r["interpreted_agrees"] for r in rows) if rows else None,
+                "max_interpreted_vs_compiled_rel": max([r["interpreted_vs_compiled_rel"] for r in rows] or [0.0]),
+                "rows": [{k: r[k] for k in ("case", "label", "mode", "elements", "regions", "bitwise_equal_across_threads", "interpreted_vs_compiled_rel")} for r in rows],
+            }
+        }
+        return extra, extra_results, errors
+
+    return collect
 
 
 if __name__ == "__main__":
